@@ -16,7 +16,7 @@ import sys
 import time
 
 VERIF = os.path.dirname(os.path.dirname(os.path.abspath(__file__)))
-REPO = "/repo"
+REPO = os.environ.get("VERIF_REPO", "/repo")   # only scratch work overrides this; registered checks use /repo
 LEAN = os.path.join(VERIF, "lean")
 CACHE = os.path.join(VERIF, ".cache")
 HARNESS_DIR = os.path.join(VERIF, "harness")
@@ -163,7 +163,9 @@ class Ctx:
 
     # ----- theorems ------------------------------------------------------------------
     def lake_build(self, targets):
+        from . import genreg
         with Lock("lake"):
+            genreg.main()
             cmd = ["lake", "build"] + targets
             rc, out = sh(cmd, cwd=LEAN, timeout=3600)
         self.checker_cmds.append("cd lean && " + " ".join(cmd))
@@ -245,7 +247,15 @@ class Ctx:
 
     # ----- tie 2: harness / driver -----------------------------------------------------
     def build_harness(self):
+        from . import genreg
         with Lock("cargo-harness"):
+            genreg.main()
+            link = os.path.join(HARNESS_DIR, "reposrc")
+            want = os.path.join(REPO, "src")
+            if not os.path.islink(link) or os.readlink(link) != want:
+                if os.path.lexists(link):
+                    os.remove(link)
+                os.symlink(want, link)
             lock_src = os.path.join(REPO, "Cargo.lock")
             lock_dst = os.path.join(HARNESS_DIR, "Cargo.lock")
             if os.path.exists(lock_src) and open(lock_src).read() != (open(lock_dst).read() if os.path.exists(lock_dst) else ""):
